@@ -253,29 +253,31 @@ def run(chk):
     for fn, c in corpus:
         if "history" in c:
             ops = ops_from_json(c["history"])
-            jobs.append((c04_exe, mx, c.get("options", "tiny-files"), c.get("versions", 1), ops, "c%d" % len(jobs), 6, 7, False, num_levels))
-            names.append(("corpus_" + fn[:-5], c.get("options", "tiny-files"), c.get("versions", 1), ops))
+            jobs.append((c04_exe, mx, c.get("options", "tiny-files"), c.get("versions", 1), ops, "c%d" % len(jobs), c.get("tamper_budget", 6), c.get("tamper_seed", 7), False, num_levels))
+            names.append(("corpus_" + fn[:-5], c.get("options", "tiny-files"), c.get("versions", 1), ops, c.get("tamper_budget", 6), c.get("tamper_seed", 7), False))
     for i in range(n_hist):
         optname = OPTION_SETS[i % len(OPTION_SETS)][0]
         versions = rng.choice([1, 1, 2, 3])
         universe = UNIVERSE[:rng.choice([6, 10, 16])]
         ops = gen_history(rng.fork(), rng.choice([60, 120, 240]), universe)
         exhaustive = (not quick) and i % 50 == 0
-        jobs.append((c04_exe, mx, optname, versions, ops, "h%d" % i, 10 if quick else 30, rng.u64(), exhaustive, num_levels))
-        names.append(("h%d" % i, optname, versions, ops))
+        tseed = rng.u64()
+        jobs.append((c04_exe, mx, optname, versions, ops, "h%d" % i, 10 if quick else 30, tseed, exhaustive, num_levels))
+        names.append(("h%d" % i, optname, versions, ops, 10 if quick else 30, tseed, exhaustive))
     results = run_many(jobs)
 
     steps, tstats = collections.Counter(), collections.Counter()
     prop_bad, corr_bad, mach_bad, outside = [], [], [], 0
     outside_reasons = collections.Counter()
     shapes = set()
-    for (name, optname, versions, ops), r in zip(names, results):
+    for (name, optname, versions, ops, tbudget, tseed, texh), r in zip(names, results):
         steps.update(r.stats)
         tstats.update(r.tstats)
         if r.outside:
             outside += 1
             outside_reasons[re.sub(r"[0-9a-f]{16,}", "..", r.outside)[:120]] += 1
-        replay = {"name": name, "options": optname, "versions": versions, "history": ops_to_json(ops), "events_tail": [list(e) for e in r.events]}
+        replay = {"name": name, "options": optname, "versions": versions, "tamper_budget": tbudget, "tamper_seed": tseed, "tamper_exhaustive": texh,
+                  "history": ops_to_json(ops), "events_tail": [list(e) for e in r.events]}
         for p in r.problems:
             if p["kind"] == "outside":
                 continue
@@ -341,8 +343,8 @@ def replay(path):
             print("now:", ok, d)
             return 0 if ok else 1
         return 1
-    r = run_history(c04_exe, mx, obj.get("options", "tiny-files"), obj.get("versions", 1), ops_from_json(obj["history"]), "replay", 10, 7, False,
-                    consts["Books"]["BOOKS_NUM_LEVELS"])
+    r = run_history(c04_exe, mx, obj.get("options", "tiny-files"), obj.get("versions", 1), ops_from_json(obj["history"]), "replay",
+                    obj.get("tamper_budget", 10), obj.get("tamper_seed", 7), obj.get("tamper_exhaustive", False), consts["Books"]["BOOKS_NUM_LEVELS"])
     bad = [p for p in r.problems if p["kind"] != "outside"]
     print("problems now:", json.dumps(bad[:10], indent=1)[:4000])
     return 1 if bad else 0
